@@ -6,8 +6,11 @@ LEVEL = "proof"
 DRIVER = {"srcs": ["harness/c04_driver.cc"], "sdk": True}
 TRIVIAL_TAGS = {"unsampled", "p0_dtor", "p0_end", "p0_end2", "p0_end_late", "p0_end2_late"}
 ASSUMPTIONS = [
-    "one span per provider, driven from one thread; the threaded part of the quantifier (several threads on one span) is not "
-    "exercised by this check - the model's step function is what every mutator does while holding Span::mu_",
+    "one span per provider.  'Several threads on one span': every mutator is modelled as one atomic step (what it does while holding "
+    "Span::mu_); threaded cases run 2-4 real threads on one span BEFORE it is ended, with thread-disjoint attribute keys / event names, and are "
+    "compared with the sequentialisation thread 0,1,.. after the driver grouped the threaded events by thread (theorem "
+    "every_interleaving_same_export: all interleavings agree up to that grouping); End racing with mutators of other threads is not exercised; "
+    "data races are looked for with ASan/UBSan only (no TSan build)",
     "processors are SimpleSpanProcessor / BatchSpanProcessor in front of a harness exporter whose MakeRecordable returns the SDK's SpanData; "
     "batch processors are flushed and shut down before the exporters' spans are dumped (delivery/ordering of batches is C01-C03)",
     "explicit timestamps are in [1, 2^62) nanoseconds (0 is the API's 'not given' value and is generated as such); values the SDK reads from a "
@@ -164,6 +167,46 @@ def rnd_case(rng, shape=None):
     return " | ".join(secs)
 
 
+def rnd_thread_op(rng, ti, nkeys):
+    """an operation thread ti may issue concurrently with the other threads (coq/C04/Glue.v: thread_op_ok)"""
+    pre = bytes([48 + ti])
+    k = rng.below(10 if ti == 0 else 8)
+    if k < 5:
+        return "SA %s %s" % (hx(pre + rnd_key(rng, nkeys)), rnd_val(rng))
+    if k < 8:
+        form = rng.below(4)
+        nm = hx(pre + rng.choice([b"", b"e", b"ev\x00"]))
+        if form == 0:
+            return "EV0 " + nm
+        if form == 1:
+            return "EVT %s %d" % (nm, rnd_ts(rng))
+        if form == 2:
+            return "EVA " + nm + "".join(" ; %s %s" % (hx(rnd_key(rng, nkeys)), rnd_val(rng)) for _ in range(rng.below(3)))
+        return "EVTA %s %d%s" % (nm, rnd_ts(rng), "".join(" ; %s %s" % (hx(rnd_key(rng, nkeys)), rnd_val(rng)) for _ in range(rng.below(3))))
+    return rnd_op(rng, nkeys, ["SS", "UN", "IR"])
+
+
+def rnd_mt_case(rng, per_thread):
+    """several threads hammer one span, then the main thread goes on sequentially"""
+    nkeys = rng.choice([2, 3, 4])
+    kinds = [rng.choice(["S", "S", "B"]) for _ in range(rng.choice([1, 2, 3]))]
+    secs = ["P" + "".join(" " + k for k in kinds), "SMP 1", "SC x6c x x", "R",
+            "ST %s %d 0 %d%s" % (hx(rnd_name(rng)), rng.below(5), rng.choice([0, 10]), rnd_attrs(rng, nkeys) if rng.chance(1, 2) else ""),
+            "PAR"]
+    for ti in range(rng.choice([2, 2, 3, 4])):
+        secs.append("TH")
+        for _ in range(per_thread // 2 + rng.below(per_thread)):
+            secs.append(rnd_thread_op(rng, ti, nkeys))
+    secs.append("SEQ")
+    for _ in range(rng.below(4)):
+        secs.append(rnd_op(rng, nkeys, W_BEFORE))
+    if rng.chance(2, 3):
+        secs.append("END %d" % rng.choice([0, rnd_ts(rng)]))
+        for _ in range(rng.below(3)):
+            secs.append(rnd_op(rng, nkeys, W_AFTER))
+    return " | ".join(secs)
+
+
 def directed(rng):
     """every value alternative once as span attribute, start attribute, event attribute, link attribute, overwritten and overwriting"""
     out = []
@@ -194,6 +237,8 @@ def gen(rng, tier):
     cases = directed(rng)
     for _ in range(n):
         cases.append(rnd_case(rng))
+    for i in range(150 if tier == "quick" else 2000):
+        cases.append(rnd_mt_case(rng, rng.choice([4, 20, 60, 150])))
     return cases
 
 
